@@ -182,7 +182,7 @@ def check (d : Desc) (n : Net) : List Finding :=
       | some p, some l => if p == l then [] else [fnd "router-port-count" r.name s!".{param}({p}) but array on {port} has {l} elements"]
       | _, _ => [fnd "router-port-count" r.name s!"cannot relate .{param} to {port}"]
     chk "NumInputs" "floo_req_i" ++ chk "NumInputs" "floo_rsp_o" ++ chk "NumOutputs" "floo_req_o" ++
-    chk "NumOutputs" "floo_rsp_i" ++
+    chk "NumOutputs" "floo_rsp_i" ++ chk "NumRoutes" "floo_req_o" ++
     (if d.netType == .nw then chk "NumInputs" "floo_wide_i" ++ chk "NumOutputs" "floo_wide_o" else []) ++
     (if d.algo == .ID then
       match Hw.routerTable n r, Hw.paramNat r "NumAddrRules" with
@@ -196,7 +196,8 @@ def check (d : Desc) (n : Net) : List Finding :=
          | _ => [])
       | _, _ => [fnd "router-num-rules" r.name "no table / NumAddrRules"]
     else [])
-  f1 ++ f2 ++ f3 ++ f4 ++ f5 ++ f6 ++ f7 ++ f8 ++ f9
+  -- without address table (`use_id_table: false`) the package has a dummy `Sam` and nothing to count there
+  (if n.tableless then [] else f1 ++ f2 ++ f3 ++ f4 ++ f5) ++ f6 ++ f7 ++ f8 ++ f9
 
 end C13
 
